@@ -1112,8 +1112,12 @@ inline CaseSpec gen_lattice_case(const GenCfg &cfg, std::vector<std::string> *cl
   GeomSpec &g = cs.g;
   OptSpec &o = cs.o;
   g.is_mesh = 1;
-  const int n = R(23, cfg.thorough ? 120 : 40), m = R(23, cfg.thorough ? 120 : 40);
-  const int flat = P(60);
+  // half of the patches are exact integer lattices: 2^k - 1 cells per side quantized to k bits (step 1), flat - every
+  // correction is zero and the stream shrinks to a few bytes per thousand faces
+  const bool exact = P(50);
+  const int kbits = exact ? (cfg.thorough ? R(5, 7) : R(5, 6)) : 0;
+  const int n = exact ? (1 << kbits) - 1 : R(23, cfg.thorough ? 120 : 40), m = exact ? n : R(23, cfg.thorough ? 120 : 40);
+  const int flat = exact ? 1 : P(60);
   AttSpec pos;
   pos.type = GeometryAttribute::POSITION;
   pos.dtype = draco::DT_FLOAT32;
@@ -1136,8 +1140,8 @@ inline CaseSpec gen_lattice_case(const GenCfg &cfg, std::vector<std::string> *cl
   g.atts.push_back(pos);
   o.per_type.resize(5);
   AttOpt q;
-  q.qbits = R(6, 12);
-  if (P(40)) {
+  q.qbits = exact ? kbits : R(6, 12);
+  if (!exact && P(40)) {
     AttSpec tc;
     tc.type = GeometryAttribute::TEX_COORD;
     tc.dtype = draco::DT_FLOAT32;
@@ -1161,7 +1165,7 @@ inline CaseSpec gen_lattice_case(const GenCfg &cfg, std::vector<std::string> *cl
   o.enc_speed = o.dec_speed = P(80) ? R(0, 4) : R(5, 9);
   o.track = P(50);
   cs.skip_mask = static_cast<uint32_t>(R(0, 31));
-  classes->push_back("lattice_patch_1000plus_faces");
+  classes->push_back(exact ? "lattice_patch_exact_integer_grid" : "lattice_patch_1000plus_faces");
   return cs;
 }
 
